@@ -489,7 +489,11 @@ func checkSortDelegation(c *Ctx, r *Rec) {
 		for _, name := range []string{"SortValues", "SortValuesWithRanker", "ReverseValues", "ShuffleValues"} {
 			fd := tms[name]
 			if fd == nil || storage == nil {
-				r.undecided("D3-live-delegation", "collection."+t.n.Obj().Name()+"."+name, "", "method or storage field not found")
+				if fd != nil && storage == nil {
+					r.skip("D3-live-delegation", "collection."+t.n.Obj().Name()+"."+name, "", "the collection does not keep its values in a "+t.iface+" field: another representation, the delegation rule is not bound to it")
+				} else {
+					r.undecided("D3-live-delegation", "collection."+t.n.Obj().Name()+"."+name, "", "method or storage field not found")
+				}
 				continue
 			}
 			params := paramObjs(info, fd)
@@ -1115,6 +1119,14 @@ func checkSortDriver(c *Ctx, r *Rec, info *types.Info, fd *ast.FuncDecl, merge *
 	var viol []string
 	if len(got) == 0 {
 		viol = append(viol, "the merge call was not reached")
+	}
+	for _, row := range got {
+		for _, s := range row {
+			if strings.Contains(s.lo, "val:") || strings.Contains(s.hi, "val:") {
+				r.skip(rule, construct, c.pos(fd.Pos()), "a bound of a run is the answer of a helper that is not interpreted ("+s.lo+":"+s.hi+"): the bounds are not compared")
+				return
+			}
+		}
 	}
 	for _, row := range got {
 		a, b, m := row[0], row[1], row[2]
